@@ -1579,6 +1579,11 @@ func (m *Model) ruleREGISTRY(r *Results) {
 		}
 		nDel++
 		ok := shut != nil && (shut.Block() == del.Block() && indexIn(shut.Block(), shut) < indexIn(del.Block(), del) || shut.Block() != del.Block() && shut.Block().Dominates(del.Block()))
+		if !ok && shut == nil && fn.Parent() != nil {
+			// the deletion is a callback handed to a helper that shuts the store down first and only
+			// then runs it (`bucket.shutDown(func() error { return deleteBucket(ctx, bucket) })`)
+			ok = m.closureRunsAfterShutdown(fn)
+		}
 		r.check(ok, rule, m.declName(root)+" / store shut down before its files are deleted", m.instrPos(del), "the shutdown routine runs on every path before the files are deleted", "the bucket's files are deleted on a path on which the shared store has not been shut down: handles that are still open keep reading and writing a deleted database, and their feeds and timer keep running")
 	}
 	if nDel == 0 {
@@ -1627,6 +1632,16 @@ func (m *Model) ruleSHUTDOWN(r *Results) {
 			dbClose = c
 		}
 		if callee := cc.StaticCallee(); callee != nil && m.inPkg(callee) {
+			// the step of the shutdown routine that closes the handle
+			for _, st := range a.ShutdownSteps {
+				if st == callee {
+					m.eachCall(st, func(c3 ssa.CallInstruction) {
+						if isMethodCall(c3.Common(), "database/sql", "DB", "Close") {
+							dbClose = c
+						}
+					})
+				}
+			}
 			stops := false
 			reach := m.reachHybrid(callee, false)
 			for _, e := range m.calleesOf(fn) {
@@ -1831,10 +1846,48 @@ func (m *Model) operationRoots(fn *ssa.Function, site ssa.Instruction) []string 
 		if f == nil || d > 12 {
 			return
 		}
-		if f.Parent() != nil {
-			// a closure: continue from the enclosing function (the closure's creation point)
-			visit(f.Parent(), nil, d+1)
-			return
+		// a function used as a value (a bound method, or a closure that is handed on rather than
+		// called): a callback, named after the one package function it runs, however it is wrapped
+		if isBound := strings.HasSuffix(f.Name(), "$bound"); isBound || f.Parent() != nil {
+			asValue := isBound
+			if f.Parent() != nil {
+				asValue = true
+				for _, b := range f.Parent().Blocks {
+					for _, ins := range b.Instrs {
+						if c, ok := ins.(ssa.CallInstruction); ok {
+							if mc, ok := c.Common().Value.(*ssa.MakeClosure); ok && mc.Fn == ssa.Value(f) {
+								asValue = false // called where it is made (a defer, an immediate call)
+							}
+							// handed to a package function that runs it before it returns (a transaction
+							// runner, a "do this while holding the lock" helper): part of the same operation
+							for i, a := range c.Common().Args {
+								if mc, ok := a.(*ssa.MakeClosure); ok && mc.Fn == ssa.Value(f) {
+									if h := c.Common().StaticCallee(); h != nil && m.inPkg(h) && m.invokesParam(h, i, 0) {
+										asValue = false
+									}
+								}
+							}
+						}
+					}
+				}
+			}
+			if asValue {
+				var callees []*ssa.Function
+				m.eachCall(f, func(c ssa.CallInstruction) {
+					if g := c.Common().StaticCallee(); g != nil && m.inPkg(g) {
+						callees = append(callees, g)
+					}
+				})
+				if len(callees) == 1 {
+					roots["callback "+m.declName(callees[0])] = true
+					return
+				}
+			}
+			if f.Parent() != nil {
+				// a closure: continue from the enclosing function (the closure's creation point)
+				visit(f.Parent(), nil, d+1)
+				return
+			}
 		}
 		if seen[key{f, at}] {
 			return
@@ -1912,4 +1965,91 @@ func spilledResult(ret *ssa.Return, rv ssa.Value) ssa.Value {
 		}
 	}
 	return rv
+}
+
+// closureRunsAfterShutdown: the closure is created once, handed to a package function as an
+// argument, and that function invokes the corresponding parameter only after a call that always
+// reaches the shutdown routine.
+func (m *Model) closureRunsAfterShutdown(clos *ssa.Function) bool {
+	parent := clos.Parent()
+	if parent == nil {
+		return false
+	}
+	okAll, n := true, 0
+	for _, b := range parent.Blocks {
+		for _, ins := range b.Instrs {
+			mc, isMC := ins.(*ssa.MakeClosure)
+			if !isMC || mc.Fn != ssa.Value(clos) || mc.Referrers() == nil {
+				continue
+			}
+			for _, ref := range *mc.Referrers() {
+				call, isCall := ref.(ssa.CallInstruction)
+				if !isCall {
+					okAll = false
+					continue
+				}
+				h := call.Common().StaticCallee()
+				if h == nil || !m.inPkg(h) || h.Blocks == nil {
+					okAll = false
+					continue
+				}
+				for i, a := range call.Common().Args {
+					if a != ssa.Value(mc) || i >= len(h.Params) {
+						continue
+					}
+					n++
+					p := h.Params[i]
+					var shuts, invokes []ssa.CallInstruction
+					m.eachCall(h, func(c ssa.CallInstruction) {
+						if c.Common().Value == ssa.Value(p) && !c.Common().IsInvoke() {
+							invokes = append(invokes, c)
+						}
+						if g := c.Common().StaticCallee(); g != nil && (g == m.A.ShutdownFn || m.inPkg(g) && m.alwaysCalls(g, m.A.ShutdownFn, 0)) {
+							shuts = append(shuts, c)
+						}
+					})
+					if len(invokes) == 0 || p.Referrers() == nil {
+						okAll = false
+					}
+					for _, inv := range invokes {
+						dominated := false
+						for _, sh := range shuts {
+							if sh.Block() == inv.Block() && indexIn(sh.Block(), sh) < indexIn(inv.Block(), inv) || sh.Block() != inv.Block() && sh.Block().Dominates(inv.Block()) {
+								dominated = true
+							}
+						}
+						if !dominated {
+							okAll = false
+						}
+					}
+				}
+			}
+		}
+	}
+	return okAll && n > 0
+}
+
+// invokesParam: package function h calls its function-typed parameter #i itself (or hands it to
+// a package function that does), as opposed to storing it for later.
+func (m *Model) invokesParam(h *ssa.Function, i int, depth int) bool {
+	if h == nil || i >= len(h.Params) || depth > 2 || h.Blocks == nil {
+		return false
+	}
+	p := h.Params[i]
+	found := false
+	m.eachCall(h, func(c ssa.CallInstruction) {
+		if c.Common().Value == ssa.Value(p) && !c.Common().IsInvoke() {
+			if _, isGo := c.(*ssa.Go); !isGo {
+				found = true
+			}
+		}
+		if g := c.Common().StaticCallee(); g != nil && m.inPkg(g) {
+			for j, a := range c.Common().Args {
+				if a == ssa.Value(p) && m.invokesParam(g, j, depth+1) {
+					found = true
+				}
+			}
+		}
+	})
+	return found
 }
